@@ -5,9 +5,15 @@
    WhollyInsideKept, DisjointNeverPlaced, LongestPiece, IdsDistinct, FilterHarmless, WithinAcceptance.  Part B =
    LayoutExtractor.process_page as a machine over the 16 option combinations: PageIdsDistinct, OnlyThatCombination.
    Self-test: Legacy=TRUE (line id without orientation tag = current tree) must violate PageIdsDistinct.
+   Part C = a skewed page: tilted baselines (Pythagorean directions, exact integer rotations) in rectangular regions through the
+   orientation loop and the merge loop (merge_lines: de-skew about the origin, merge, rotate back): CPieceOfDetected,
+   CWhollyInsideKept.  Self-test: MergeBackSame=TRUE (rotating "back" by the same angle) must violate CWhollyInsideKept.
 2. Cases: the same configurations are built with numpy polygons and handed to the real
    layout_helpers.assign_lines_to_regions and to the real LayoutExtractor.process_page (stub detector).
-3. Conformance: RegionAssign_Trace, property level: Mandatory <= observed <= Allowed, outline clipped, ids distinct.
+   Part C: the same rectangles / tilted baselines through the real LayoutExtractor.process_page with MERGE_LINES on and off.
+3. Conformance: RegionAssign_Trace, property level: Mandatory <= observed <= Allowed, outline clipped, ids distinct; kind "tilt":
+   every returned line inside its rectangle and a piece of one detected baseline (0.1 px), outline inside the band of that baseline,
+   every baseline wholly inside a rectangle (and not mergeable) returned with its points unchanged.
    The comparison with the detailed model (which pairs are placed) only feeds MODEL-DRIFT.
 """
 import contextlib
@@ -59,6 +65,56 @@ RINGS = {"S": [(0, 0), (4, 0), (4, 2), (8, 2), (8, 4), (4, 4), (4, 2), (0, 2)]}
 INVALID = {"S"}
 
 
+# ---- Part C: a skewed page - tilted baselines in rectangular regions (one dict for TLA+ and Python)
+FAM_C = {
+    "rects": {"P": (40, 40, 960, 760), "Lc": (40, 40, 480, 760), "Rc": (520, 40, 960, 760), "In": (60, 200, 700, 620)},   # x0 y0 x1 y1, px
+    "regsets": [["P"], ["Lc", "Rc"], ["In", "P"]],                       # one page region, two columns, nested
+    "dirs": [(40, 9, 41), (60, 11, 61), (40, -9, 41), (12, 5, 13)],       # Pythagorean directions (dx, dy, norm): 12.7, 10.4, -12.7, 22.6 degrees
+    "slots": [150, 290, 430, 570],                                       # y of the first point: rows 140 px apart (not mergeable)
+    "xs": [80, 300, 560],                                                # x of the first point: left column, across the gap, right column
+    "lens": [200, 320],                                                  # approximate x-extent
+    "page": (800, 1000),                                                 # height, width
+}
+SUPPLIED_ID_C = {"P": "r000", "Lc": "r000_1", "Rc": "r000_3", "In": "r001"}
+
+
+def tilted_line(slot, xi, li, di):
+    """the baseline [slot, di, a, d, n, ks, h] of the family: integer points a + ks[m] * d"""
+    dx, dy, n = FAM_C["dirs"][di]
+    k = max(3, int(round(FAM_C["lens"][li] / float(dx))))
+    ks = [[0, k], [0, k // 2, k], [0, 1, k - 1, k]][(slot + xi + li) % 3]
+    return {"slot": slot, "di": di, "a": [FAM_C["xs"][xi], FAM_C["slots"][slot]], "d": [dx, dy], "n": n, "ks": ks,
+            "h": [8 + 2 * slot, 3 + slot]}
+
+
+def tilted_lists(maxlines, di):
+    """every list of <= maxlines baselines of direction di in strictly increasing rows (= CLineLists of RegionAssign)"""
+    per_slot = [[tilted_line(sl, xi, li, di) for xi in range(len(FAM_C["xs"])) for li in range(len(FAM_C["lens"]))]
+                for sl in range(len(FAM_C["slots"]))]
+    for n in range(maxlines + 1):
+        for slots in itertools.combinations(range(len(per_slot)), n):
+            for combo in itertools.product(*[per_slot[sl] for sl in slots]):
+                yield [dict(x) for x in combo]
+
+
+def _tla_rect(name):
+    x0, y0, x1, y1 = FAM_C["rects"][name]
+    return '[name |-> "%s", x0 |-> %d, y0 |-> %d, x1 |-> %d, y1 |-> %d]' % (name, x0, y0, x1, y1)
+
+
+def _tla_line(l):
+    tup = lambda v: "<<" + ", ".join("%d" % x for x in v) + ">>"
+    return "[slot |-> %d, di |-> %d, a |-> %s, d |-> %s, n |-> %d, ks |-> %s, h |-> %s]" % (
+        l["slot"], l["di"], tup(l["a"]), tup(l["d"]), l["n"], tup(l["ks"]), tup(l["h"]))
+
+
+def mc_part_c():
+    regsets = ",\n ".join("{" + ", ".join(_tla_rect(n) for n in rs) + "}" for rs in FAM_C["regsets"])
+    lines = ",\n ".join(_tla_line(tilted_line(sl, xi, li, di)) for di in range(len(FAM_C["dirs"]))
+                        for sl in range(len(FAM_C["slots"])) for xi in range(len(FAM_C["xs"])) for li in range(len(FAM_C["lens"])))
+    return "MCRegSetsC == {%s}\nMCLineSetC == {%s}\n" % (regsets, lines)
+
+
 def ring_of(lib, name):
     if name in RINGS:
         return np.array(RINGS[name], dtype=np.float64)
@@ -74,11 +130,12 @@ def mc_module(lib, names, root):
     for n in names:
         cells = "{" + ", ".join("<<%d, %d>>" % c for c in lib[n]) + "}"
         items.append('[name |-> "%s", cells |-> %s, valid |-> %s]' % (n, cells, "FALSE" if n in INVALID else "TRUE"))
-    return "---- MODULE MC_%s ----\nEXTENDS %s\nMCShapes == {%s}\n====\n" % (root, root, ",\n ".join(items))
+    return "---- MODULE MC_%s ----\nEXTENDS %s\nMCShapes == {%s}\n%s====\n" % (root, root, ",\n ".join(items), mc_part_c())
 
 
-def constants(ncols, nrows, maxregs, maxlines, legacy=False):
-    return {"Shapes": "<- MCShapes", "NCols": ncols, "NRows": nrows, "MaxRegs": maxregs, "MaxLines": maxlines, "Legacy": legacy}
+def constants(ncols, nrows, maxregs, maxlines, legacy=False, cmax=2, back_same=False):
+    return {"Shapes": "<- MCShapes", "NCols": ncols, "NRows": nrows, "MaxRegs": maxregs, "MaxLines": maxlines, "Legacy": legacy,
+            "CRegSets": "<- MCRegSetsC", "CLineSet": "<- MCLineSetC", "CMaxLines": cmax, "MergeBackSame": back_same}
 
 
 def all_lines(ncols, nrows):
@@ -264,6 +321,89 @@ def run_extract(case):
     return tr
 
 
+def _milli_c(v):
+    """thousandths of a pixel, clamped to +-6000 px (keeps the products of RegionAssign_Trace inside TLC's 32-bit integers)"""
+    v = float(v)
+    if not np.isfinite(v):
+        return -6000000
+    return int(round(min(6000.0, max(-6000.0, v)) * 1000))
+
+
+def _pts_c(a):
+    a = np.asarray(a)
+    if a.ndim != 2 or a.shape[1] != 2:
+        return []
+    return [[_milli_c(x), _milli_c(y)] for x, y in a]
+
+
+def _rect_ring(name):
+    x0, y0, x1, y1 = FAM_C["rects"][name]
+    return np.array([[x0, y0], [x1, y0], [x1, y1], [x0, y1]], dtype=np.float64)
+
+
+def _detected_c(lines):
+    from pero_ocr.layout_engines import layout_helpers as helpers
+    bl = [np.array([[l["a"][0] + k * l["d"][0], l["a"][1] + k * l["d"][1]] for k in l["ks"]], dtype=np.float64) for l in lines]
+    hl = [[float(l["h"][0]), float(l["h"][1])] for l in lines]
+    return bl, hl, [helpers.baseline_to_textline(b, h) for b, h in zip(bl, hl)]
+
+
+class StubEngineC:
+    """stands for LayoutEngine on a skewed page: rectangular regions for every orientation, the tilted baselines for rot 0 only
+    (the rotated passes find vertical text, of which this page has none); fresh arrays per call"""
+    def __init__(self, names, lines):
+        self.names, self.lines = names, lines
+        self.polys = []
+
+    def detect(self, img, rot=0):
+        p_list = [_rect_ring(n) for n in self.names]
+        self.polys.append(p_list)
+        bl, hl, tl = _detected_c(self.lines if rot == 0 else [])
+        return p_list, bl, hl, tl
+
+
+def run_tilt(case):
+    """one real call of LayoutExtractor.process_page on a skewed page; case = {"regs", "lines", "opts", "seed"}"""
+    from pero_ocr.layout_engines import layout_helpers as helpers
+    from pero_ocr.core.layout import PageLayout, RegionLayout
+    o = case["opts"]
+    tr = {"kind": "tilt", "opts": dict(o),
+          "rects": [dict(zip(("x0", "y0", "x1", "y1"), FAM_C["rects"][n]), name=n) for n in case["regs"]],
+          "det": [{k: l[k] for k in ("a", "d", "n", "ks", "h")} for l in case["lines"]],
+          "result": [], "outcome": "ok"}
+    try:
+        with contextlib.redirect_stdout(io.StringIO()), warnings.catch_warnings():
+            warnings.simplefilter("ignore")
+            page = PageLayout(id="p", page_size=FAM_C["page"])
+            page.regions = [RegionLayout(SUPPLIED_ID_C[n], _rect_ring(n)) for n in case["regs"]]
+            bl, hl, tl = _detected_c(case["lines"])
+            helpers.assign_lines_to_regions(bl, hl, tl, page.regions)          # the page was processed once before
+            supplied = list(page.regions)
+            name_of = {id(r0): n for r0, n in zip(supplied, case["regs"])}
+            le = _make_extractor(o, StubEngineC(case["regs"], case["lines"]))
+            random.seed(case.get("seed", 0))
+            np.random.seed(case.get("seed", 0))
+            res = le.process_page(np.zeros(FAM_C["page"] + (3,), dtype=np.uint8), page)
+        for r in res.regions:
+            name = name_of.get(id(r))
+            if name is None:
+                for p_list in le.engine.polys:
+                    for k, p in enumerate(p_list):
+                        if r.polygon is p:
+                            name = case["regs"][k]
+            if name is None:          # fall back to equality by value (the polygon was copied)
+                for n in case["regs"]:
+                    ring = _rect_ring(n)
+                    if np.asarray(r.polygon).shape == ring.shape and np.array_equal(np.asarray(r.polygon), ring):
+                        name = n
+            tr["result"].append({"rid": str(r.id), "name": name if name is not None else "?",
+                                 "lines": [{"id": str(ln.id), "pts": _pts_c(ln.baseline), "poly": _pts_c(ln.polygon)} for ln in r.lines]})
+    except Exception as ex:
+        tr["outcome"] = "exception:" + type(ex).__name__
+        tr["result"] = []
+    return tr
+
+
 _GRID_B = (3, 2)
 SUPPLIED_ID = {"R": "r000", "N": "r000_1", "C": "r000_3"}
 
@@ -273,6 +413,8 @@ def run_case(case):
     if case["kind"] == "assign":
         _GRID = LIBS[case["lib"]][1:]
         return run_assign(case)
+    if case["kind"] == "tilt":
+        return run_tilt(case)
     _GRID = _GRID_B
     return run_extract(case)
 
@@ -283,6 +425,10 @@ CL_A = {0: "the call raised", 1: "two lines got the same id",
         3: "the outline of a placed line is not clipped to the region",
         4: "a line wholly inside a region was not placed there unchanged"}
 CL_B = {0: "process_page raised", 1: "two lines on the page have the same id", 2: "a line does not lie inside its region"}
+CL_C = {0: "process_page raised", 1: "two lines on the page have the same id",
+        2: "a placed line does not lie inside its region or its baseline is not a piece of a detected baseline",
+        3: "the outline of a placed line is not inside its region / not the clipped outline of the detected line",
+        4: "a detected baseline wholly inside a region (and not mergeable) was not placed there unchanged"}
 
 
 def signature(tr, prog):
@@ -292,6 +438,10 @@ def signature(tr, prog):
                 4: "wholly-inside-not-kept"}.get(prog, "clause%d" % prog)
         return "assign:%s:%s" % (cls, what)
     o = tr["opts"]
+    if tr["kind"] == "tilt":
+        what = {0: tr["outcome"], 1: "duplicate-line-ids", 2: "not-a-piece-of-detected-baseline", 3: "outline-not-clipped",
+                4: "wholly-inside-not-kept"}.get(prog, "clause%d" % prog)
+        return "tilt:%s:dr=%d,dl=%d,merge=%d,multi=%d" % (what, o["dr"], o["dl"], o["merge"], o["multi"])
     what = {0: tr["outcome"], 1: "duplicate-line-ids", 2: "line-outside-region"}.get(prog, "clause%d" % prog)
     return "extract:%s:dr=%d,dl=%d,merge=%d,multi=%d" % (what, o["dr"], o["dl"], o["merge"], o["multi"])
 
@@ -312,8 +462,14 @@ def judge(ctx, cases, traces, lib_names, consts, label, drift=True):
         ctx.count(1, (tr["kind"], repr(case)) if n > 0 else None)
     for i, prog in rej:
         tr = traces[i]
-        cl = (CL_A if tr["kind"] == "assign" else CL_B).get(prog, "clause %d" % prog)
-        if tr["kind"] == "assign":
+        cl = {"assign": CL_A, "extract": CL_B, "tilt": CL_C}[tr["kind"]].get(prog, "clause %d" % prog)
+        if tr["kind"] == "tilt":
+            what = "LayoutExtractor.process_page %s on a skewed page, regions %s, detected baselines (px) %s: %s; lines returned %s" % (
+                tr["opts"], cases[i]["regs"],
+                [[[l["a"][0] + k * l["d"][0], l["a"][1] + k * l["d"][1]] for k in (l["ks"][0], l["ks"][-1])] for l in tr["det"]], cl,
+                [(r["name"], ln["id"], [[round(v / 1000.0, 2) for v in q] for q in (ln["pts"][0], ln["pts"][-1])] if ln["pts"] else [])
+                 for r in tr["result"] for ln in r["lines"]])
+        elif tr["kind"] == "assign":
             what = "assign_lines_to_regions(regions %s, lines [row, first col, last col] %s): %s; placed %s" % (
                 tr["regs"], tr["lines"], cl, [(p["region"], p["line"], p["id"], p["pts"][0][0] / 1000.0, p["pts"][-1][0] / 1000.0)
                                               for p in tr["placed"] if p["pts"]])
@@ -339,6 +495,32 @@ def judge(ctx, cases, traces, lib_names, consts, label, drift=True):
 
 _PENDING = []
 
+OPTS_C_QUICK = [(0, 1, 1, 0), (1, 1, 1, 0), (0, 0, 1, 0), (0, 1, 0, 0), (1, 1, 0, 0)]        # dr, dl, merge, multi
+OPTS_C_MORE = [(0, 1, 1, 1), (1, 1, 1, 1), (0, 0, 1, 1), (1, 0, 1, 0), (1, 1, 0, 1)]
+
+
+def tilt_cases(quick):
+    """Part C executions: quick = every list of <= 2 baselines and every 8th list of 3, each with ONE of the 15 (region set, option
+    set) combinations in turn; thorough = every list of <= 2 baselines with all 30 combinations, every list of 3 with two of them"""
+    cases = []
+
+    def add(ls, regs, o, seed):
+        cases.append({"kind": "tilt", "regs": list(regs), "lines": ls, "seed": seed,
+                      "opts": dict(zip(("dr", "dl", "merge", "multi"), o))})
+    for di in range(len(FAM_C["dirs"])):
+        for idx, ls in enumerate(tilted_lists(3, di)):
+            if quick:
+                if len(ls) == 3 and idx % 8 != di:
+                    continue
+                combos = [(rs, o) for rs in FAM_C["regsets"] for o in OPTS_C_QUICK]
+                picks = [combos[(idx + di) % len(combos)]]
+            else:
+                combos = [(rs, o) for rs in FAM_C["regsets"] for o in OPTS_C_QUICK + OPTS_C_MORE]
+                picks = combos if len(ls) <= 2 else [combos[idx % len(combos)], combos[(idx + 7) % len(combos)]]
+            for rs, o in picks:
+                add(ls, rs, o, idx)
+    return cases
+
 
 def flush(ctx):
     """report the rejected executions: one of every signature first (replay files are kept for the first 50 only)"""
@@ -362,11 +544,18 @@ def run(ctx):
                 "every list of <= MaxLines horizontal lines on the 6 x 2 cell grid (and deep-notch U shapes on a 6 x 3 grid) through the "
                 "real assign_lines_to_regions; "
                 "Part B: every set of <= 2 of 3 shapes x every list of <= 2 lines on the 3 x 2 grid x 16 option combinations "
-                "through the real LayoutExtractor.process_page with a stub detector; non-trivial = at least one line placed")
+                "through the real LayoutExtractor.process_page with a stub detector; "
+                "Part C: lists of <= 3 tilted baselines (4 page skews, 4 rows x 3 columns x 2 lengths, 2-4 points) x 3 sets of rectangular "
+                "regions (page, two columns, nested) x option sets with and without MERGE_LINES through the real process_page "
+                "(quick: every list of <= 2 and every 8th list of 3 with one combination each; thorough: all 30 combinations); "
+                "non-trivial = at least one line placed")
     ctx.exhaustive = True
     ctx.assume("regions are rectilinear polygons on a 2 px cell grid; detected lines are horizontal, end in cell centres and have "
                "heights (1, 1) so that their outline is one grid row",
-               "the stub detector returns the same regions and lines for every orientation",
+               "the stub detector returns the same regions and lines for every orientation (Part C: the tilted lines for rot 0 only)",
+               "Part C: baselines in different rows (140 px apart, heights <= 20 px) are not mergeable; 'unchanged' / 'piece of the "
+               "detected baseline' within 0.1 px (the rotate-forth-and-back of merge_lines is exact to ~1e-13 px); under MERGE_LINES "
+               "'placed unchanged' is demanded only of baselines at least twice the summed heights away from every other baseline",
                "coordinates compared exactly in thousandths of a pixel (shapely returns exact values on this family)",
                "'clipped' = the outline covers (with area > 1e-9) only cells of the region",
                "the drift case of DESIGN.md (outline edge on a region boundary -> GeometryCollection -> line dropped) is "
@@ -392,6 +581,15 @@ def run(ctx):
     ctx.tlc("MC_RegionAssign", constants=constants(3, 2, 1, 1, legacy=True), init="BInit", next_="BNext", invariants=["PageIdsDistinct"],
             workers=1, coverage=False, files=fb, expect_violation="PageIdsDistinct",
             label="self-test Legacy=TRUE (line id without orientation tag)")
+    # Part C: a skewed page (tilted baselines in rectangular regions) through the orientation loop and the merge loop; self-test: the
+    # "back" rotation of merge_lines by the same angle as forth (MergeBackSame) must violate CWhollyInsideKept
+    cmax = 2 if quick else 3
+    ctx.tlc("MC_RegionAssign", constants=constants(3, 2, 1, 1, cmax=cmax), init="CInit", next_="CNext",
+            invariants=["CPieceOfDetected", "CWhollyInsideKept", "CMergeEnabled"], workers=4, timeout=3000, files=fb,
+            label="RegionAssign Part C (skewed page, merge loop) lines<=%d" % cmax)
+    ctx.tlc("MC_RegionAssign", constants=constants(3, 2, 1, 1, cmax=2, back_same=True), init="CInit", next_="CNext",
+            invariants=["CWhollyInsideKept"], workers=1, coverage=False, files=fb, expect_violation="CWhollyInsideKept",
+            label="self-test MergeBackSame=TRUE (merge_lines rotates back by the same angle)")
     _dbg(ctx, "design done")
 
     # ---- Part A: real assign_lines_to_regions on the same space
@@ -458,6 +656,27 @@ def run(ctx):
     k = next((i for i in range(len(traces)) if sum(len(r["lines"]) for r in traces[i]["result"]) >= 3), 0)
     ctx.sample({"part": "B", "opts": traces[k]["opts"], "regs": traces[k]["regs"], "lines": traces[k]["lines"],
                 "line_ids": [ln["id"] for r in traces[k]["result"] for ln in r["lines"]]})
+    # ---- Part C: real LayoutExtractor.process_page on a skewed page (tilted baselines, rectangular regions, merge loop)
+    cases = tilt_cases(quick)
+    ctx.notes["part_c"] = ("every baseline list of the Part C design is executed, but not with every (region set, option set) "
+                           "combination: " + (tilt_cases.__doc__ or "").strip())
+    traces = pmap(run_case, cases, procs=PROCS)
+    _dbg(ctx, "part C executed %d" % len(cases))
+    _, rej = judge(ctx, cases, traces, (LIB_B, names_b), constants(3, 2, 1, 1), "Part C (skewed page)", drift=False)
+    rejected = {i for i, _ in rej}
+    k = next((i for i in range(len(traces)) if i not in rejected and traces[i]["opts"]["merge"] == 1
+              and sum(len(r["lines"]) for r in traces[i]["result"]) >= 2), None)
+    if k is not None:
+        ctx.sample({"part": "C", "opts": traces[k]["opts"], "regs": cases[k]["regs"],
+                    "lines": [(r["name"], ln["id"], ln["pts"]) for r in traces[k]["result"] for ln in r["lines"]]})
+
+        def corrupt3(tr):
+            r = next(r for r in tr["result"] if r["lines"])
+            for q in r["lines"][0]["pts"]:
+                q[1] += 2000                             # the first returned baseline lies 2 px lower than recorded
+            return tr
+        ctx.selftest_corrupt("MC_RegionAssign_Trace", traces[k], corrupt3, constants=dict(constants(3, 2, 1, 1), Detailed=False),
+                             files={"MC_RegionAssign_Trace.tla": mc_module(LIB_B, names_b, "RegionAssign_Trace")})
     flush(ctx)
     ctx.notes["explanation"] = (
         "TLC exhaustive on RegionAssign Part A (invariants %s) and Part B (%s); the same region sets / line lists / option "
@@ -471,6 +690,8 @@ def replay(ctx, rec):
     if case["kind"] == "assign":
         lib, nc, nr = LIBS[case["lib"]]
         judge(ctx, [case], [tr], (lib, sorted(lib)), constants(nc, nr, 1, 1), "replay", drift=False)
+    elif case["kind"] == "tilt":
+        judge(ctx, [case], [tr], (LIB_B, sorted(LIB_B)), constants(3, 2, 1, 1), "replay", drift=False)
     else:
         judge(ctx, [case], [tr], (LIB_B, sorted(LIB_B)), constants(3, 2, 1, 1), "replay", drift=False)
     flush(ctx)
